@@ -23,7 +23,7 @@ LEVEL_TEXT = ("Base scenarios with depth-dependent sheared, time-dependent curre
 LEVEL_NOTE = "Equality is on f8 output, so 'bit for bit' is exact. Trusts the row tag column (an int instance variable) to follow the particle (C05)."
 RULE = ("case = base scenario + variant list. Non-trivial: at least one particle placed behind a removed/killed one in the state arrays survives for >= 3 further records "
         "(the cross-talk pattern); distinct by base parameters.")
-MANDATORY = ["shallow_only_pairs", "killed_newest_pairs", "pid_to_row_mapping_checked", "vertical_advection", "deactivated_rows_alone_pairs", "lonlat_release_pairs", "reversed_time", "subgrid_off_diagonal", "float_day_time_axis", "repeat_pairs", "subset_pairs", "added_rows_pairs", "permuted_pairs", "killed_others_pairs", "time_shift_pairs", "deactivated_others_pairs", "empty_state_before_late_release_pairs", "death_then_output",
+MANDATORY = ["repeat_with_stateful_plugin_pairs", "interleaved_release_times_pairs", "shallow_only_pairs", "killed_newest_pairs", "pid_to_row_mapping_checked", "vertical_advection", "deactivated_rows_alone_pairs", "lonlat_release_pairs", "reversed_time", "subgrid_off_diagonal", "float_day_time_axis", "repeat_pairs", "subset_pairs", "added_rows_pairs", "permuted_pairs", "killed_others_pairs", "time_shift_pairs", "deactivated_others_pairs", "empty_state_before_late_release_pairs", "death_then_output",
              "trajectory_points_compared", "dense", "sparse", "survivor_behind_removed"]
 ASSUMPTIONS = ["diffusion off (as the property states)"]
 TIMEOUT = {"quick": 900, "thorough": 3400}
@@ -189,8 +189,10 @@ def run_case(case: dict[str, Any], wd: Path) -> dict[str, Any]:
     sit["subgrid_off_diagonal"] = int(bool(b.get("subgrid")))
     sit["vertical_advection"] = int(bool(b.get("vadv")))
 
-    def run(tag, rows, kill_tag, shift=0, deact=None):
+    def run(tag, rows, kill_tag, shift=0, deact=None, ibm_module=None):
         scn = make_scn(b, rows, kill_tag, shift, deact)
+        if ibm_module:
+            scn["run"]["ibm"]["module"] = ibm_module
         res, conf, world = run_scenario(scn, wd / tag)
         cnt["runs"] = cnt.get("runs", 0) + 1
         if not res.ok:
@@ -230,9 +232,11 @@ def run_case(case: dict[str, Any], wd: Path) -> dict[str, Any]:
 
     variants = ["repeat", "kill", "subset", "shift", "add", "permute", "deactivate"][: case["nvar"] + 1]
     if case["nvar"] == 4:
-        variants = ["kill", "add", "permute", "shift", "deactivate", "late_only", "kill_newest"] if case["idx"] % 2 else ["repeat", "kill", "subset", "deactivate", "kill_all_early", "shallow_only"]
+        variants = ["kill", "add", "permute", "shift", "deactivate", "late_only", "kill_newest"] if case["idx"] % 2 else ["repeat", "kill", "subset", "deactivate", "kill_all_early", "shallow_only", "interleave"]
+        if case["idx"] % 4 == 1:
+            variants.append("repeat_stateful")
     else:
-        variants += ["late_only", "kill_all_early", "shallow_only", "kill_newest"]
+        variants += ["late_only", "kill_all_early", "shallow_only", "kill_newest", "interleave", "repeat_stateful"]
     nontrivial = False
     for var in variants:
         if len(V) > 2:
@@ -332,6 +336,28 @@ def run_case(case: dict[str, Any], wd: Path) -> dict[str, Any]:
             o = run("permute", rows2, {})
             if o:
                 compare("release rows permuted", o, rids, "permuted_pairs")
+        elif var == "repeat_stateful":
+            # an IBM given by file path that keeps a module-level call counter and switches one particle off at its third call:
+            # repeating the run in the same process reproduces the output (the plug-in file is loaded afresh for every run)
+            mod = wd / "stateful_ibm.py"
+            mod.write_text("from vmon.plugins.rec_ibm import IBM as _IBM\n\nCALLS = 0\n\n\nclass IBM(_IBM):\n    def update(self):\n        global CALLS\n        CALLS += 1\n"
+                           "        super().update()\n        if CALLS == 3:\n            st = self.state\n            st['active'] = st['active'] & (st['rid'] != %d)\n" % rids[0])
+            o1 = run("stateful_1", b["rows"], {}, ibm_module=str(mod))
+            o2 = run("stateful_2", b["rows"], {}, ibm_module=str(mod))
+            if o1 and o2:
+                compare("run with a stateful IBM module repeated in the same process", o2, rids, "repeat_with_stateful_plugin_pairs", ref=o1)
+        elif var == "interleave":
+            # rows of one release time no longer contiguous in the file (t0, t1, t0, t1, ...; first appearances still in simulation order)
+            groups = [[r for r in b["rows"] if r["step"] == s] for s in sorted({r["step"] for r in b["rows"]})]
+            rows2 = []
+            while any(groups):
+                for g_ in groups:
+                    if g_:
+                        rows2.append(g_.pop(0))
+            if len({r["step"] for r in b["rows"]}) > 1:
+                o = run("interleave", rows2, {})
+                if o:
+                    compare("release rows of the same time scattered over the file", o, rids, "interleaved_release_times_pairs")
         elif var == "shift":
             k = int(rng.choice([-7, 3, 11, 144]))
             o = run("shift", b["rows"], {}, shift=k)
